@@ -218,6 +218,8 @@ func (o Op) String() string {
 		return fmt.Sprintf("in-place edit of list element %d (subid=%v) through the accessor's slice", o.N, o.Flag)
 	case "editfilter":
 		return fmt.Sprintf("Filters()[%d].SetFilter(len %d)/SetOptions(%d)", o.N, len(o.B), o.ID)
+	case "dupfilter":
+		return fmt.Sprintf("AddFilters(Filters()[%d]): the same TopicFilter value a second time", o.N)
 	case "editwill":
 		return fmt.Sprintf("c.Will().AddUserProp(%d pairs): edit the attached will through the accessor, no new SetWill", len(o.KV))
 	case "rewill":
@@ -554,16 +556,16 @@ func Apply(p mq.Packet, o Op) error {
 		// (ReasonCodes(), SubscriptionIDs()) or through the exported UserProperties field
 		switch x := p.(type) {
 		case *mq.SubAck:
-			if l := x.ReasonCodes(); len(l) > 0 {
+			if l := x.ReasonCodes(); len(l) > 0 && Sem().ReasonCodesLive {
 				l[int(o.N)%len(l)] = byte(o.ID)
 			}
 		case *mq.UnsubAck:
-			if l := x.ReasonCodes(); len(l) > 0 {
+			if l := x.ReasonCodes(); len(l) > 0 && Sem().ReasonCodesLive {
 				l[int(o.N)%len(l)] = byte(o.ID)
 			}
 		case *mq.Publish:
 			if o.Flag {
-				if l := x.SubscriptionIDs(); len(l) > 0 {
+				if l := x.SubscriptionIDs(); len(l) > 0 && Sem().SubIDsLive {
 					l[int(o.N)%len(l)] = 1 + uint32(o.ID)
 				}
 			} else if len(x.UserProperties) > 0 {
@@ -573,17 +575,25 @@ func Apply(p mq.Packet, o Op) error {
 	case "editfilter":
 		// in-place edit of a topic filter through the slice Filters() returns
 		x, ok := p.(*mq.Subscribe)
-		if !ok || len(x.Filters()) == 0 {
+		if !ok || len(x.Filters()) == 0 || !Sem().FiltersLive {
 			return nil
 		}
 		i := int(o.N) % len(x.Filters())
 		x.Filters()[i].SetFilter(string(o.B))
 		x.Filters()[i].SetOptions(mq.Opt(o.ID))
+	case "dupfilter":
+		// a TopicFilter VALUE the packet already holds is added once more (the two
+		// entries are copies of one struct): they must stay independent afterwards
+		x, ok := p.(*mq.Subscribe)
+		if !ok || len(x.Filters()) == 0 {
+			return nil
+		}
+		x.AddFilters(x.Filters()[int(o.N)%len(x.Filters())])
 	case "editwill":
 		// what Will() returns IS the attached message (SetWill keeps the pointer):
 		// user properties added through it belong to the CONNECT's will
 		cn := p.(*mq.Connect)
-		if w := cn.Will(); w != nil {
+		if w := cn.Will(); w != nil && Sem().WillLive {
 			args := make([]string, 0, 2*len(o.KV))
 			for _, kv := range o.KV {
 				args = append(args, string(kv[0]), string(kv[1]))
@@ -728,7 +738,7 @@ func ApplyModel(a *ref.AP, o Op) {
 	case "editlist":
 		switch a.Type {
 		case ref.SubAck, ref.UnsubAck:
-			if len(a.Codes) > 0 {
+			if len(a.Codes) > 0 && Sem().ReasonCodesLive {
 				cs := append([]byte{}, a.Codes...)
 				cs[int(o.N)%len(cs)] = o.ID
 				a.Codes = cs
@@ -744,7 +754,7 @@ func ApplyModel(a *ref.AP, o Op) {
 					idx = append(idx, i)
 				}
 			}
-			if len(idx) > 0 {
+			if len(idx) > 0 && (!o.Flag || Sem().SubIDsLive) {
 				ps := append([]ref.Prop{}, a.Props...)
 				i := idx[int(o.N)%len(idx)]
 				if o.Flag {
@@ -756,14 +766,19 @@ func ApplyModel(a *ref.AP, o Op) {
 			}
 		}
 	case "editfilter":
-		if a.Type == ref.Subscribe && len(a.Filters) > 0 {
+		if a.Type == ref.Subscribe && len(a.Filters) > 0 && Sem().FiltersLive {
 			i := int(o.N) % len(a.Filters)
 			fs := append([]ref.Filter{}, a.Filters...)
 			fs[i] = ref.Filter{Name: o.B, Opts: o.ID}
 			a.Filters = fs
 		}
+	case "dupfilter":
+		if a.Type == ref.Subscribe && len(a.Filters) > 0 {
+			f := a.Filters[int(o.N)%len(a.Filters)]
+			a.Filters = append(append([]ref.Filter{}, a.Filters...), ref.Filter{Name: append([]byte{}, f.Name...), Opts: f.Opts})
+		}
 	case "editwill":
-		if a.Will != nil {
+		if a.Will != nil && Sem().WillLive {
 			w := *a.Will
 			w.Props = append([]ref.Prop{}, a.Will.Props...)
 			for _, kv := range o.KV {
